@@ -169,7 +169,8 @@ def execute(scn):
                           for n in ("integer", "even", "null", "ghost")]
         vec["check_schema"] = [outcome(lambda: K.check_schema(copy.deepcopy(c)))
                                for c in ({"minimum": "x"}, {"type": 12}, {"maxLength": -1}, {"minimum": 3, "type": "integer"},
-                                         {"properties": {"a": {"enum": []}}}, {"required": "a"})]
+                                         {"properties": {"a": {"enum": []}}}, {"required": "a"},
+                                         {"type": "even"}, {"type": ["nonempty", "string"]}, {"type": "ghost"})]
         vec["default_types"] = outcome(lambda: sorted((k, repr(t)) for k, t in K.DEFAULT_TYPES.items()))
         return vec
 
